@@ -54,8 +54,8 @@ func (p *resultsPrinter) PrintedAnything() bool {
 }
 
 func (p *resultsPrinter) printNode(node *CandidateNode, writer io.Writer) error {
-	p.printedMatches = p.printedMatches || (node.Tag != "!!null" &&
-		(node.Tag != "!!bool" || node.Value != "false"))
+	// false has more than one spelling (False, FALSE)
+	p.printedMatches = p.printedMatches || isTruthyNode(node)
 	return p.encoder.Encode(writer, node)
 }
 
